@@ -64,8 +64,29 @@ ROLES = {
     "map_rk": (PC, ("Client::map_rk",), lambda p, b, r, a: r == "bool" and any("AuthenticatorSelectionCriteria" in x for x in a) and any("get_info::Response" in x for x in a)),
     "to_packets": (PH, ("Message::to_packets",), lambda p, b, r, a: _owner(b) == "Message" and "PacketHeader" in r and r.startswith("alloc::vec::Vec")),
     "extend": (PH, ("Message::extend",), lambda p, b, r, a: _owner(b) == "Message" and any("ContHeader" in x for x in a) and "Result" in r),
+    "check_is_already_set": (PT, ("serde_workaround::check_is_already_set",), lambda p, b, r, a: not _owner(b) and _calls(p, b, "Error::duplicate_field") and not _calls(p, b, "MapAccess::next_value") and any(x.replace(" ", "").startswith("&core::option::Option<") for x in a)),
+    "set_if_none": (PT, ("serde_workaround::set_if_none",), lambda p, b, r, a: not _owner(b) and _calls(p, b, "MapAccess::next_value") and any(x.replace(" ", "").startswith("&mutcore::option::Option<") for x in a)),
     "node_label": ("public_suffix", ("ListProvider::node_label",), lambda p, b, r, a: _owner(b) == "ListProvider" and "str" in r and a[1:] == ["u32"]),
 }
+
+
+def fits(p, role):
+    """private functions of the role's crate that fit its signature predicate (whatever they are called)"""
+    crate, canon, pred = ROLES[role]
+    out = []
+    for b in p.all_bodies:
+        if b.crate != crate or b.path != b.root or b.def_kind not in ("Fn", "AssocFn") or b.j.get("is_pub"):
+            continue
+        ri = b.j.get("root_item") or {}
+        if isinstance(ri, dict) and (ri.get("impl") or {}).get("trait"):
+            continue
+        try:
+            r, a = _sig(b)
+            if pred(p, b, r, a):
+                out.append(b)
+        except Exception:
+            continue
+    return out
 
 
 def install(p):
